@@ -102,6 +102,7 @@ func (k *c01K) switches() {
 		{"switch on typed small int", "switch x := int8(a * 100); x {\ncase 100:\n\tr = 1\ncase -100:\n\tr = 2\ncase -56:\n\tr = 3\ndefault:\n\tr = int(x)\n}\n"},
 		{"switch on bool tag", "switch a > 0 {\ncase true:\n\tr = 1\ncase b > 0:\n\tr = 2\n}\n"},
 		{"nested switches with shared variable", "x := a\nswitch {\ncase a >= 0:\n\tswitch b {\n\tcase 0:\n\t\tx += 10\n\tcase 1:\n\t\tx += 20\n\t\tfallthrough\n\tdefault:\n\t\tx *= 2\n\t}\n\tx++\ndefault:\n\tx = -x\n}\nr = x\n"},
+		{"nested ifs with && and || whose join is empty", "if a >= 0 {\n\tif a > 0 && b > 0 {\n\t\tr += 1\n\t}\n}\nif b >= 0 {\n\tif a > 1 || b > 1 {\n\t\tr += 10\n\t}\n}\nfor i := 0; i < 3; i++ {\n\tif i != a && i != b {\n\t\tr += 100\n\t}\n}\nfor i := 0; i < 3; i++ {\n\tif i == a || i == b {\n\t\tcontinue\n\t}\n\tif !(i > a) || i < b {\n\t\tr += 1000\n\t}\n}\n"},
 		{"if-else chain with init", "if x := a * b; x > 1 {\n\tr = x\n} else if y := x + 1; y > 0 {\n\tr = y * 10\n} else {\n\tr = x*100 + y\n}\n"},
 		{"condition with && || ! on locals feeding phis", "x, y := a, b\nif x > 0 && y > 0 || x == y {\n\tx = y + 1\n} else if !(x < y) {\n\ty = x + 1\n}\nfor x < 3 && y < 3 {\n\tx++\n\ty += x\n}\nr = x*10 + y\n"},
 	}
